@@ -19,6 +19,7 @@ Expressions are tuples:
   ('IDX', base)
   ('?', why)
 """
+import re
 import sys
 
 sys.setrecursionlimit(20000)
@@ -358,7 +359,8 @@ class VF:
         if "pv" in c:
             # reference to a small plain-data constant: references are erased, keep the value
             return ("K", c["pv"], c.get("pty", c["ty"]), None if c.get("promoted") else c.get("def"))
-        return ("KS", c.get("s", ""), c["ty"])
+        # allocation ids in the compiler's debug text are numbering noise
+        return ("KS", re.sub(r"\balloc\d+(<imm>)?: ", "", c.get("s", "")), c["ty"])
 
     def operand(self, op, bb, idx):
         if op[0] == "k":
